@@ -341,7 +341,11 @@ def c10_pairing(ctx, p):
     names = {k: ctx.bytes(k, p.get('ylen', 1) if k == 'y' else 1, only=tuple(range(97, 123))) for k in ('x', 'y', 'z')}
     src = []
     toks = []
-    for k in p.get('prefix', []):   # concrete inert tags in front: 'o' = opener of a name that is never closed, 'c' = stray closer
+    for k in p.get('prefix', []):   # concrete inert tags in front: 'o' = opener of a name that is never closed, 'c' = stray closer,
+        if k in ('e', 'b', 's'):   # 'e' = closer without a name `</>`, 'b' = `</ www>` (blank behind the slash: the name is empty), 's' = `<//>`
+            src += {'e': [60, 47, 62], 'b': [60, 47, 32, 119, 119, 119, 62], 's': [60, 47, 47, 62]}[k]
+            toks.append(('C', [0]))   # a closing tag whose name no element can have: stray, inert text
+            continue
         src += [60] + ([47] if k == 'c' else []) + [119, 119, 119, 62]
         toks.append(('O', [119, 119, 119]) if k == 'o' else ('C', [119, 119, 119]))
     for i in range(L):
